@@ -76,7 +76,7 @@ def tlc(scratch, cfg, module, extra, out_path, timeout, workers=None):
     heap = "-Xmx2g" if workers == 1 else ("-Xmx12g" if "Dump" not in module else "-Xmx6g")
     t0 = time.time()
     with open(out_path, "w") as out:
-        p = subprocess.run(cmd, cwd=d, stdout=out, stderr=subprocess.STDOUT, env=dict(os.environ, JAVA_TOOL_OPTIONS=heap))
+        p = subprocess.run(cmd, cwd=d, stdout=out, stderr=subprocess.STDOUT, env=dict(os.environ, JAVA_TOOL_OPTIONS=heap + " -Djava.io.tmpdir=" + d))
     shutil.rmtree(d, ignore_errors=True)
     return p.returncode, time.time() - t0
 
@@ -340,7 +340,7 @@ def validate_trace(trace_path, cfg, module, scratch, timeout=900):
     shutil.copy(trace_path, os.path.join(d, "trace.ndjson"))
     # long traces make the specification's recursive operators recurse deeply: a larger thread stack
     p = subprocess.run(["timeout", str(timeout), "tlc", "-workers", "1", "-metadir", os.path.join(d, "md"), "-config", cfg + ".cfg", module],
-                       cwd=d, capture_output=True, text=True, env=dict(os.environ, JAVA_TOOL_OPTIONS="-Xss512m -Xmx6g"))
+                       cwd=d, capture_output=True, text=True, env=dict(os.environ, JAVA_TOOL_OPTIONS="-Xss512m -Xmx6g -Djava.io.tmpdir=" + d))
     out = p.stdout
     hw = 0
     for m in re.finditer(r'<<"HW", (\d+)>>', out):
